@@ -164,3 +164,14 @@ reg("C19", "checks.attribution", dict(quick=2600, thorough=60000), dict(quick=55
     "(35% of the cases build the plan in a bare thread so that the whole stack is shorter than the limit) and the "
     "expected frames are recorded with sys._getframe at the creation line; one fault kind per case (call, store "
     "read / write / read-back, modified-time query, failing unpack, failing inserted gather)")
+
+reg("C20", "checks.display", dict(quick=2600, thorough=60000), dict(quick=55, thorough=900), "exploration",
+    "one case = one bundled observer class (console / HTML / IPython widgets, instrumented only through the documented "
+    "_render/_output extension points) with its real update thread on the virtual clock, driven either by a real "
+    "simulated uberjob.run over a generated world or by a generated legal notification sequence (totals, then "
+    "running/completed/failed from 1-4 notifier threads with virtual work durations, stale phase before run phase) "
+    "over scope tuples of ints, strs, None, floats, bools, tuples, frozensets, enum members and unorderable tokens; "
+    "render intervals, schedule strategy and granularity vary per case; non-trivial = >= 2 renderings or >= 1 "
+    "pre-emptive switch; distinct = distinct (case digest, interleaving digest)",
+    assumptions=["IPython.display.display is stubbed; ipywidgets run without a kernel (dummy comm)"],
+    chunk=8)
